@@ -182,6 +182,64 @@ theorem C11_defaults (comp : Comp) (r c : Nat) :
   cases comp <;> refine ⟨by decide +kernel, ?_⟩ <;>
     simp [flagAt, toNested, defaultFlag, iloc, documentedDefault, Nat.mod_one]
 
+/-- The same text converts the same way in every position whose flag is the same — whatever component the
+position belongs to (title, subline, page header/footer, column header cell, body cell, group heading,
+footnote or source as table row or as paragraph), whatever shape its `text_convert` has (scalar, per line,
+per column, matrix) and whatever the text looks like: nothing but the flag and the text enters. -/
+theorem C11_position_independent (esc : Str → Str) (v₁ v₂ : FlagVal) (r₁ c₁ r₂ c₂ : Nat) (t : Str) (b : Bool)
+    (h₁ : flagAt v₁ r₁ c₁ = some b) (h₂ : flagAt v₂ r₂ c₂ = some b) :
+    positionText esc v₁ r₁ c₁ t = positionText esc v₂ r₂ c₂ t := by
+  rw [C11_per_position esc v₁ r₁ c₁ t b h₁, C11_per_position esc v₂ r₂ c₂ t b h₂]
+
+/-! ## texts that look like another literal (numbers, digit groups, `inf`/`nan`, booleans, blanks around them) -/
+
+/-- a text without a backslash is `regular`: no command, no page keyword, so nothing the passes could confuse -/
+theorem C11_backslash_free_regular (t : Str) (h : '\\' ∉ t) : regular t = true := by
+  have go : ∀ (t : Str) (k : Nat), '\\' ∉ t → regularGo k t = true := by
+    intro t
+    induction t with
+    | nil => intro k _; cases k <;> rfl
+    | cons c t ih =>
+      intro k hk
+      have ht : '\\' ∉ t := fun hm => hk (List.mem_cons_of_mem _ hm)
+      have hc : c ≠ '\\' := fun he => hk (he ▸ List.mem_cons_self)
+      cases k with
+      | succ k => exact ih k ht
+      | zero =>
+        unfold regularGo
+        split
+        · exact ih _ ht
+        · simp only [hc, if_false]
+          exact ih 0 ht
+  exact go t 0 h
+
+/-- Hence every backslash-free text — in particular every text a number parser would accept: digits, signs,
+a decimal point, an exponent, digit-group underscores, `inf`, `nan`, surrounding blanks and newlines — is
+converted token by token like any other text: `_` and `^` switch, a newline breaks the line, `>=`/`<=` become
+the signs (followed by the blank of D15), every other character stays. -/
+theorem C11_conversion_backslash_free (t : Str) (h : '\\' ∉ t) : convertCore true t = renderD15 (spec t) :=
+  C11_conversion_upto_D15 t (C11_backslash_free_regular t h)
+
+/-- … and exactly the natural rendering when no comparison token occurs -/
+theorem C11_conversion_backslash_free_exact (t : Str) (h : '\\' ∉ t) (hc : noCmp (spec t) = true) :
+    convertCore true t = render (spec t) :=
+  C11_conversion_partial t (C11_backslash_free_regular t h) hc
+
+/-- number-like texts are read like any other: `101_2` is `101`, subscript switch, `2`; `12` followed by a
+newline is `12` and a line break; `1e1_0`, ` 1_000 `, `inf^2`, `-1_0.5`, `True_1` likewise -/
+example :
+    spec "101_2".toList = [.plain '1', .plain '0', .plain '1', .sub, .plain '2'] ∧
+    convertCore true "101_2".toList = "101\\sub 2".toList ∧
+    convertCore true "12\n".toList = "12\\line ".toList ∧
+    convertCore true "\n3.5".toList = "\\line 3.5".toList ∧
+    convertCore true "1e1_0".toList = "1e1\\sub 0".toList ∧
+    convertCore true " 1_000 ".toList = " 1\\sub 000 ".toList ∧
+    convertCore true "inf^2".toList = "inf\\super 2".toList ∧
+    convertCore true "-1_0.5".toList = "-1\\sub 0.5".toList ∧
+    convertCore true "True_1".toList = "True\\sub 1".toList ∧
+    convertCore false "101_2".toList = "101_2".toList := by
+  decide +kernel
+
 /-! ## non-vacuity -/
 
 /-- a regular text without comparison tokens that exercises every other kind of event -/
